@@ -6,7 +6,7 @@ Import ListNotations.
 (* ------------------------------------------------------------------ trees *)
 Inductive label :=
 | LSec (k : nat) | LHeading | LP | LUl | LOl | LLi | LDt | LDd
-| LTable | LRow | LCell (hdr : bool) | LPre | LRef | LLink (t : N) | LExt (u : N).
+| LTable | LRow | LCell (hdr : bool) | LPre | LRef | LLink (t : N) | LExt (u : N) | LCaption.
 
 (* a text leaf carries its word id and its styles; structure is given by Node labels *)
 Inductive tree := Leaf (w : N) (b i : bool) | Node (l : label) (ch : list tree).
@@ -203,6 +203,7 @@ Inductive block :=
 | BP (lines : list (list inl))
 | BList (lines : list (list N * list inl * option (list inl)))
 | BTable (rows : list (list (bool * list inl)))
+| BTableC (cap : list inl) (rows : list (list (bool * list inl)))   (* table with a caption line |+ cap in front of the first row *)
 | BPre (lines : list (list inl)).
 
 Definition den_block (b : block) : list tree :=
@@ -213,6 +214,9 @@ Definition den_block (b : block) : list tree :=
     let ls := map (fun pl => (fst (fst pl), den_inline (snd (fst pl)), option_map den_inline (snd pl))) lines in
     den_list (line_fuel ls) ls
   | BTable rows => [Node LTable (map (fun row => Node LRow (map (fun cell => Node (LCell (fst cell)) (den_inline (snd cell))) row)) rows)]
+  | BTableC cap rows =>
+    [Node LTable (Node LCaption (den_inline cap) ::
+                  map (fun row => Node LRow (map (fun cell => Node (LCell (fst cell)) (den_inline (snd cell))) row)) rows)]
   | BPre lines => [Node LPre (flat_map den_inline lines)]
   end.
 
